@@ -47,7 +47,7 @@ class LocalSim(mosaik_api_v3.Simulator):
             ctx.nstep[self.sid] = ctx.nstep.get(self.sid, 0) + 1
             t, inputs, m = args
             ctx.steptime[self.sid] = t
-            ev = {"k": "SB", "s": self.sid, "t": t, "m": m, "inp": _inp_list(inputs)}
+            ev = {"k": "SB", "s": self.sid, "t": drive._enc_time(t), "m": drive._enc_time(m), "inp": _inp_list(inputs)}
             if ctx.rt is not None:
                 ev["w"] = ctx.ticks()
             ctx.record(ev)
